@@ -10,9 +10,9 @@ Open Scope Z_scope.
 (* Progress is POSSIBILITY (exists es): some own step always decreases the measure; a scheduler
    could in principle prefer the timer branch, but every such detour consumes one XTimerFire, an
    environment event, so without further environment events every maximal run of own steps is
-   finite and ends in the return (fairness of the Go scheduler is assumed, not modelled). Not
-   modelled: the caller of ForceClose itself (Close waits on the WaitGroup for every Do; a Do
-   blocked inside the injected drop handler strands it) -- covered by the harness watchdog only.
+   finite and ends in the return (fairness of the Go scheduler is assumed, not modelled). The
+   caller of ForceClose itself: see C26_close_waits_and_rejects (it returns exactly when every Do
+   has returned; a Do blocked inside the injected drop handler keeps it waiting).
    Progress: in every reachable state in which the engine has been force-closed, every
    pending call (entered, not yet returned) can reach its return within 56 steps none of
    which is an environment event: only its own steps and the completion of a handler
@@ -25,6 +25,38 @@ Theorem C26_progress_after_close : forall mx s c, 1 <= mx -> reach mx s -> fclos
                 is_returned (pc (calls s' c)) = true /\ (length es <= 56)%nat.
 Proof. exact c26_progress. Qed.
 Print Assumptions C26_progress_after_close.
+
+(* Graceful Close (Engine.Close; ForceClose = reqCancel then Close): Close marks the engine
+   closed under the mutex (XCloseMark) and waits on the WaitGroup that Do joins in its entry
+   region (CEntered = closed check + wg.Add in one mutex region) and leaves with its last
+   deferred call (wg.Done, part of the return step). Once a Close / ForceClose call has
+   returned (XCloseReturned, enabled only on an empty wait group) no call is pending -- in that
+   state and in every later one; every Do that starts after the engine was marked closed is
+   rejected in its entry region (CEntered is disabled), and a rejected call has transmitted
+   nothing and dropped nothing. *)
+Theorem C26_close_waits_and_rejects : forall mx s, 1 <= mx -> reach mx s ->
+  (closeret s = true ->
+     eclosed s = true /\ wgl s = [] /\
+     forall c, entered (calls s c) = true -> is_returned (pc (calls s c)) = true) /\
+  (eclosed s = true -> forall c m q b, step s (CEntered c m q b) = None) /\
+  (forall c, pc (calls s c) = PReturned RRejected ->
+     entered (calls s c) = false /\ nsends (calls s c) = 0 /\ ndrops (calls s c) = 0).
+Proof. exact c26_close. Qed.
+Print Assumptions C26_close_waits_and_rejects.
+
+(* Non-vacuity: a graceful Close with one call pending; the result arrives, Do returns, Close
+   returns, a later Do is rejected. Close cannot return while the call is pending. *)
+Definition C26_close_trace : list ev :=
+  [CEntered 0 5 1 7; CRegistered 0; CAckWait 0; CSend 0 5 1 7 0; CSelect 0; XCloseMark].
+Definition C26_close_rest : list ev :=
+  [NLookup 0 5 0 9; NEnter 0 0; NClaimed 0 0; NDecode 0 0 true 9; NDoneClosed 0 0; NRetryClosed 0 0; NFinish 0 0;
+   CSelCtx 0; CRetried 0; CWait 0; CWaitDone 0; CUnregistered 0; CAwait 0; CSettled 0; CReturn 0 0 0 false false;
+   XCloseReturned; CReturn 1 6 0 true true].
+Example C26_close_nonvacuous :
+  run (init 3) (C26_close_trace ++ [XCloseReturned]) = None /\
+  exists s, run (init 3) (C26_close_trace ++ C26_close_rest) = Some s /\ closeret s = true /\
+            pc (calls s 0) = PReturned RNil /\ pc (calls s 1) = PReturned RRejected /\ nsends (calls s 1) = 0.
+Proof. vm_compute. split; [reflexivity | eexists; repeat split]. Qed.
 
 (* Classification. snap26 = "ack delivered, result/error handler completed, or caller
    cancelled" at the moment the close branch of the retry loop polled. The retryable
